@@ -131,8 +131,10 @@ class C16(Prop):
             v = coords[0] - Fraction(rng.choice([1, 8, 64]), 8)
         else:
             # a hair outside / inside an edge or a coordinate: "close to" is not "equal to" (all values dyadic, so exact)
-            eps = Fraction(1, 2 ** rng.choice([20, 30, 40, 45]))
+            eps = Fraction(1, 2 ** rng.choice([20, 30, 40]))
             v = rng.choice([coords[0] - eps, coords[-1] + eps, coords[0] + eps, coords[-1] - eps, rng.choice(coords) - eps])
+            if Fraction(float(v)) != v:  # must be a double, or the implementation sees another number than the model
+                v = Fraction(float(v))
         return {"kind": "index", "axis": axis, "v": v, "raise": rng.random() < 0.5}
 
     def _setpos_case(self, rng):
@@ -162,6 +164,7 @@ class C16(Prop):
                 else:
                     eps = Fraction(1, 2 ** rng.choice([20, 30, 40]))
                     v = rng.choice([cs[0] - eps, cs[-1] + eps, rng.choice(cs) - eps])
+                    v = Fraction(float(v))
                 query.append(v)
             else:
                 query.append(None)
